@@ -34,15 +34,19 @@ STATUS_OBJECT = {
     "ddl_create_schema": "S3", "ddl_create_schema_q": "s Quoted", "ddl_create_schema_fq": "S9", "ddl_create_database": "DB3",
     "ddl_drop_table": "ORDERS", "ddl_drop_view": "PEOPLE_V", "ddl_drop_schema": "S2", "ddl_create_with_comment": "T_C",
     "ddl_create_table_types": "TYPED",
+    "ddl_create_table_identifier_fn": "NEWT_FN", "ddl_create_table_identifier_fn_fq": "NEWT_FQ", "ddl_create_table_identifier_fn_q": "newt_Fq",
+    "ddl_drop_table_identifier_fn": "TMPD",
 }
 SESSION_AFTER = {"ses_use_database": ("DB2", None), "ses_use_schema": ("DB1", "S2"), "ses_use_schema_fq": ("DB2", "S1")}
-VERBATIM = {"Mixed", "Col", "lower", "MyId", "NewQ", "s Quoted", "a", "Id", "Metrics"}
+VERBATIM = {"newt_Fq", "Mixed", "Col", "lower", "MyId", "NewQ", "s Quoted", "a", "Id", "Metrics"}
 # quoted names are reported exactly as written: the description of these templates, and where their object ends up
 EXPECT_DESC = {"q_quoted_case_pair_a": ["ID", "LOWER"], "q_quoted_case_pair_b": ["Id", "lower"], "q_cte_quoted_def": ["N"], "q_cte_quoted_ref": ["N"], "q_quoted_upper_special": ["ORDER ID", "A.B", "UNIT-PRICE", "COUNT(*)"], "ddl_create_table_q_dotted": ["ORDER ID"], "q_quoted": ["Col", "lower"]}
 EXPECT_ROWS = {"ddl_case_variant_recreate": [("NAME", 3)]}
 # templates that only name CTEs and fully qualified objects also run in a session without a current schema
 NOSCHEMA = {"q_cte_quoted_def", "q_cte_quoted_ref", "q_cte"}
-EXPECT_TABLE = {"ddl_quoted_case_pair": ["DB1", "S1", "METRICS"], "ddl_create_table_q_dotted": ["DB1", "S1", "S2.DOTTED"], "ddl_create_table_q": ["DB1", "S1", "NewQ"]}
+EXPECT_TABLE = {"ddl_quoted_case_pair": ["DB1", "S1", "METRICS"], "ddl_create_table_q_dotted": ["DB1", "S1", "S2.DOTTED"], "ddl_create_table_q": ["DB1", "S1", "NewQ"],
+                "ddl_create_table_identifier_fn": ["DB1", "S1", "NEWT_FN"], "ddl_create_table_identifier_fn_fq": ["DB1", "S1", "NEWT_FQ"],
+                "ddl_create_table_identifier_fn_q": ["DB1", "S1", "newt_Fq"]}
 
 
 def gen_cases(tier: str, seed: int):
